@@ -141,8 +141,10 @@ func runRaces(tier string, deadline time.Time, r *vx.Report) {
 		b = 3
 	}
 	execs := 0
-	for _, what := range []string{"broadcast", "restore", "second-broadcast"} {
-		st := vx.Explore(raceScenario(what, b), 0, deadline)
+	scs := []*vx.Scenario{raceScenario("broadcast", b), raceScenario("restore", b), raceScenario("second-broadcast", b),
+		restoreRaceScenario(1, b), restoreRaceScenario(2, b)}
+	for _, sc := range scs {
+		st := vx.Explore(sc, 0, deadline)
 		execs += st.Execs
 		r.Evaluations += st.Execs
 		r.DistinctNontriv += st.DeviatedExecs
@@ -162,7 +164,7 @@ func runRaces(tier string, deadline time.Time, r *vx.Report) {
 			r.Violate(f.Key, msg, map[string]any{"part": "race", "scenario": strings.TrimPrefix(f.Scenario, "cleaner-race/"), "tier": tier})
 		}
 	}
-	r.Extra["cleaner_race"] = map[string]any{"scenarios": 3, "deviation_bound": b, "executions": execs}
+	r.Extra["cleaner_race"] = map[string]any{"scenarios": len(scs), "deviation_bound": b, "executions": execs}
 }
 
 // replayRace re-explores one race scenario (the schedule space is small) and reports its findings.
@@ -171,7 +173,13 @@ func replayRace(what, tier string) ([]finding, string) {
 	if tier == "thorough" {
 		b = 3
 	}
-	st := vx.Explore(raceScenario(what, b), 0, time.Now().Add(5*time.Minute))
+	sc := raceScenario(what, b)
+	if strings.HasPrefix(what, "restore-race/") {
+		live := 1
+		fmt.Sscanf(what, "restore-race/%d-", &live)
+		sc = restoreRaceScenario(live, b)
+	}
+	st := vx.Explore(sc, 0, time.Now().Add(5*time.Minute))
 	var fs []finding
 	for _, f := range st.Found {
 		fs = append(fs, finding{f.Key, f.Msg})
